@@ -244,6 +244,16 @@ pub fn c07(g: &mut G) {
             g.emit(format!("sink 0 {} {} - {} {}", GEOMS[j % 7], script_str(&script), hex(&prefill), ops));
         }
     }
+    // every front end over short-writing / interrupting sinks
+    for calls in &sample_inputs(g) {
+        let ops = if calls.is_empty() { "-".to_string() } else { show_calls(calls) };
+        for (j, fe) in ["map", "set", "map_iter", "set_iter", "map_stream", "set_stream", "raw_iter", "raw_stream"].iter().enumerate() {
+            let script: Vec<Resp> = (0..4000).map(|i| if (i + j) % 4 == 3 { Resp::Interrupted } else { Resp::Take(1 + (i * 3 + j) % 5) }).collect();
+            g.emit(format!("sink 0 default {} - _ {} {}", script_str(&script), ops, fe));
+            g.emit("verify".into());
+            g.emit("stream always - -".into());
+        }
+    }
     // a 1 000-key map through a chunky sink
     let mut rng = Rng::new(g.rng.next());
     let words = random_words(&mut rng, 1000, b"abcdef", 8);
@@ -256,7 +266,7 @@ pub fn c07(g: &mut G) {
 pub fn c11(g: &mut G) {
     let inputs = sample_inputs(g);
     for calls in &inputs {
-        let ops = show_calls(calls);
+        let ops = if calls.is_empty() { "-".to_string() } else { show_calls(calls) };
         let w = measure_w(calls, &[]);
         let lim = if g.thorough { w } else { w.min(120) };
         for i in 0..lim {
@@ -264,16 +274,36 @@ pub fn c11(g: &mut G) {
             let geom = if i % 2 == 1 { "1x1" } else { "default" };
             for kind in 0..(if g.thorough { 4 } else { 3 }) {
                 let mut script: Vec<Resp> = (0..i).map(|_| Resp::Take(1 << 20)).collect();
-                script.push(Resp::Fail(kind));
+                // every io::ErrorKind of the sink's repertoire, rotating with the position
+                script.push(Resp::Fail(((i as u64) * 5 + kind * 4) % 12));
                 g.emit(format!("sink 0 {} {} - _ {}", geom, script_str(&script), ops));
+            }
+            // the same failure position under every front end (wrappers, extend_iter,
+            // extend_stream): an error inside a batch call must stop the batch
+            {
+                let fes = ["map", "set", "map_iter", "set_iter", "map_stream", "set_stream", "raw_iter", "raw_stream"];
+                let fe = fes[i % fes.len()];
+                let mut script: Vec<Resp> = (0..i).map(|_| Resp::Take(1 << 20)).collect();
+                script.push(Resp::Fail((i as u64 * 7 + 4) % 12));
+                g.emit(format!("sink 0 default {} - _ {} {}", script_str(&script), ops, fe));
+                let fe2 = fes[(i + 3) % fes.len()];
+                g.emit(format!("sink 0 default {} - _ {} {}", script_str(&script), ops, fe2));
+                for fe3 in ["set_iter", "map_iter"] {
+                    if fe3 != fe && fe3 != fe2 {
+                        g.emit(format!("sink 0 default {} - _ {} {}", script_str(&script), ops, fe3));
+                    }
+                }
             }
             let mut script: Vec<Resp> = (0..i).map(|_| Resp::Take(1 << 20)).collect();
             script.push(Resp::Take(0));
             g.emit(format!("sink 0 default {} - _ {}", script_str(&script), ops));
         }
         // the final flush fails
-        for kind in 0..3 {
+        for kind in 0..12 {
             g.emit(format!("sink 0 default - {} _ {}", kind, ops));
+        }
+        for (j, fe) in ["map", "set", "map_iter", "set_iter", "map_stream", "set_stream", "raw_iter", "raw_stream"].iter().enumerate() {
+            g.emit(format!("sink 0 default - {} _ {} {}", 4 + j % 2, ops, fe));
         }
         // failure after some short writes / interruptions
         for _ in 0..(if g.thorough { 30 } else { 6 }) {
@@ -282,8 +312,11 @@ pub fn c11(g: &mut G) {
             for _ in 0..at {
                 script.push(if g.rng.chance(1, 4) { Resp::Interrupted } else { Resp::Take(1 + g.rng.below(4) as usize) });
             }
-            script.push(Resp::Fail(g.rng.below(4)));
+            script.push(Resp::Fail(g.rng.below(12)));
             g.emit(format!("sink 0 2x2 {} - _ {}", script_str(&script), ops));
+            let fes = ["map_iter", "set_iter", "map_stream", "set_stream", "map", "set"];
+            let fe = fes[g.rng.below(fes.len() as u64) as usize];
+            g.emit(format!("sink 0 default {} - _ {} {}", script_str(&script), ops, fe));
         }
     }
 }
